@@ -27,8 +27,8 @@ SPEC = dict(
     lean_targets=["SwayVerif.Props.C02"], audit="SwayVerif/Audit/C02.lean",
     theorems=["pipeline_preserves_of_passes", "asmChain_preserves", "asm_rounds_preserve", "C02_partial"],
     gen=[pass_pipeline.gen],
-    steps=[dict(bin="sv_c01", area="c02", n_quick=70, n_thorough=520, corpus="corpus/c01.txt",
-                args=["--pkg-size", "130", "--e2e", "auto"], dist_keys=_DIST, nontrivial=_nontrivial, timeout=5400)],
+    steps=[dict(bin="sv_c01", area="c02", n_quick=70, n_thorough=360, corpus="corpus/c01.txt",
+                args=["--pkg-size", "45", "--e2e", "auto"], dist_keys=_DIST, nontrivial=_nontrivial, timeout=5400)],
     custom=[_skip_guard],
     rule="the program stream of C01 (random well-typed programs incl. near-duplicate functions and constant-rich code, "
          "the corpus, a handful of e2e scripts), each built by the real compiler in the debug (OptLevel::Opt0) and the "
